@@ -268,5 +268,161 @@ theorem denOps_compile_cor (root : Node) (strict : Bool) (p : Spec.Path) (hwf : 
     (el : Pos) : denOps root strict (compile p) el = denote p root el strict := by
   rw [← denOrd_forget_of_uni _ _ _ _ (uni_compile strict p hwf), denoteR_compile,
     denoteR_forget_of_uni _ _ _ hwf]
+/-! ### evaluator ∘ canonicalize ∘ compile, and `find ∘ print`, with no hypothesis on the errors -/
+
+/-- `denOps_canonicalize` for the ranked reading: what the code evaluates is the cancelled path -/
+theorem denOrd_canonicalize (root : Node) (strict : Bool) (p : Spec.Path) (d : Nat) (el : Pos) :
+    denOrd root strict (canonicalize (compile p)) d el = denOrd root strict (compile (cancel p)) d el := by
+  by_cases hlen : (compile p).length > 1
+  · rw [canonicalize_cancel p hlen]
+  · rw [canonicalize_short _ (by omega)]
+    cases hp : p with | mk top steps =>
+    subst hp
+    cases top with
+    | true =>
+      cases steps with
+      | nil => rfl
+      | cons s r => simp [compile] at hlen
+    | false =>
+      cases steps with
+      | nil => rfl
+      | cons s r =>
+        cases r with
+        | cons _ _ => simp [compile] at hlen
+        | nil =>
+          cases s with
+          | here => simp [compile, cancel, cancelStep, compileStep, denOrd]
+          | up => simp [compile, cancel, cancelStep]
+          | name n => simp [compile, cancel, cancelStep]
+          | negidx n => simp [compile, cancel, cancelStep]
+          | slice a b c => simp [compile, cancel, cancelStep]
+
+/-- **evaluator ∘ canonicalize ∘ compile = ranked denotation** on the Canon domain (`eval_denotes`
+    without `UniSteps`): also WHICH exception is raised -/
+theorem eval_denotes_gen (root : Node) (strict : Bool) (p : Spec.Path) (hc : Canon p = true) (el : Pos) :
+    evalOps root strict (canonicalize (compile p)) el = (denoteR p root el strict).forget := by
+  rw [evalOps_denotes_gen, canonicalize_soundR _ _ _ hc, denoteR_compile]
+
+theorem eval_denotes_raw_gen (root : Node) (strict : Bool) (p : Spec.Path) (el : Pos) :
+    evalOps root strict (compile p) el = (denoteR p root el strict).forget := by
+  rw [evalOps_denotes_gen, denoteR_compile]
+
+/-- every path: the evaluator on the canonicalised compiled path = the ranked denotation of the
+    cancelled path (`eval_cancel_denotes` without `UniSteps`) -/
+theorem eval_cancel_denotes_gen (root : Node) (strict : Bool) (p : Spec.Path) (el : Pos) :
+    evalOps root strict (canonicalize (compile p)) el = (denoteR (cancel p) root el strict).forget := by
+  rw [evalOps_denotes_gen, denOrd_canonicalize, denoteR_compile]
+
+/-- on the Canon domain cancelling changes nothing of the ranked reading -/
+theorem denoteR_cancel_canon (root : Node) (strict : Bool) (p : Spec.Path) (hc : Canon p = true) (el : Pos) :
+    denoteR (cancel p) root el strict = denoteR p root el strict := by
+  rw [← denoteR_compile, ← denOrd_canonicalize, canonicalize_soundR _ _ _ hc, denoteR_compile]
+
+theorem findResOf_forget (p : Spec.Path) (root : Node) (start : Pos) (single strict : Bool) :
+    findResOf single strict (denoteR p root start strict).forget = findSpecR p root start single strict := by
+  simp only [findResOf, findSpecR]
+  cases (denoteR p root start strict).forget with
+  | error e => cases single <;> rfl
+  | ok res => cases single <;> rfl
+
+/-- **end to end, every spellable path, every `strict`, zero steps or not** (no `Canon`, no
+    `UniSteps`): `find` on the printed path = the ranked reading of the cancelled AST, including
+    which exception is raised when several are reachable -/
+theorem find_print_cancel_gen (root : Node) (start : Pos) (p : CPath) (single strict : Bool)
+    (hwf : p.wf = true) (hfit : ∀ c ∈ p.steps, StepFits c.step) :
+    find root start (print p) single strict = findSpecR (cancel p.abstract) root start single strict := by
+  rw [find_denotes_gen _ _ _ _ _ _ (tokenize_print p hwf hfit)]
+  have hden : denOrd root strict
+      (if p.steps.any (fun c => c.step.isUp || c.step.isHere) then canonicalize (compile p.abstract)
+        else compile p.abstract) 0 start = denoteR (cancel p.abstract) root start strict := by
+    split
+    · rw [denOrd_canonicalize, denoteR_compile]
+    · next hno =>
+      have hno' : p.abstract.steps.any (fun s => s.isUp || s.isHere) = false := by
+        simp only [CPath.abstract, List.any_map]
+        simpa [Function.comp_def] using hno
+      have hc : Canon p.abstract = true := canon_of_noDots _ false hno'
+      rw [denoteR_compile, denoteR_cancel_canon _ _ _ hc]
+  rw [hden, findResOf_forget]
+
+/-- **end to end on the Canon domain** (`find_print_denotes` without `UniSteps`): `find` on the printed
+    path = the ranked reading of the AST itself -/
+theorem find_print_denotes_gen (root : Node) (start : Pos) (p : CPath) (single strict : Bool)
+    (hwf : p.wf = true) (hfit : ∀ c ∈ p.steps, StepFits c.step) (hc : Canon p.abstract = true) :
+    find root start (print p) single strict = findSpecR p.abstract root start single strict := by
+  rw [find_print_cancel_gen _ _ _ _ _ hwf hfit]
+  simp only [findSpecR, denoteR_cancel_canon _ _ _ hc]
+
+theorem findSpecR_of_uni (root : Node) (start : Pos) (p : Spec.Path) (single strict : Bool)
+    (hu : UniSteps strict p.steps) :
+    findSpecR p root start single strict = findSpec p root start single strict := by
+  simp only [findSpecR, findSpec, denoteR_forget_of_uni _ _ _ hu]
+
+/-- the old `find_print_denotes` as a corollary -/
+theorem find_print_denotes_cor (root : Node) (start : Pos) (p : CPath) (single strict : Bool)
+    (hwf : p.wf = true) (hfit : ∀ c ∈ p.steps, StepFits c.step) (hc : Canon p.abstract = true)
+    (hu : UniSteps strict p.abstract.steps) :
+    find root start (print p) single strict = findSpec p.abstract root start single strict := by
+  rw [find_print_denotes_gen _ _ _ _ _ hwf hfit hc, findSpecR_of_uni _ _ _ _ _ hu]
+
+/-- the old `find_print_cancel` as a corollary -/
+theorem find_print_cancel_cor (root : Node) (start : Pos) (p : CPath) (single strict : Bool)
+    (hwf : p.wf = true) (hfit : ∀ c ∈ p.steps, StepFits c.step) (hu : UniSteps strict p.abstract.steps) :
+    find root start (print p) single strict = findSpec (cancel p.abstract) root start single strict := by
+  rw [find_print_cancel_gen _ _ _ _ _ hwf hfit, findSpecR_of_uni _ _ _ _ _ (uniSteps_cancel strict _ hu)]
+
+/-- the old `eval_denotes` as a corollary -/
+theorem eval_denotes_cor (root : Node) (strict : Bool) (p : Spec.Path)
+    (hwf : UniSteps strict p.steps) (hc : Canon p = true) (el : Pos) :
+    evalOps root strict (canonicalize (compile p)) el = denote p root el strict := by
+  rw [eval_denotes_gen _ _ _ hc, denoteR_forget_of_uni _ _ _ hwf]
+
+/-! ### non-vacuity: the three orders differ, and the ranked AST reading is the code's
+
+`mixedTree` = Dict{x: Dict{a: List[…]}, y: Dict{b}} (`Proofs/C14.lean`).  `[:]/a[::0]`, strict: the
+lookup `a` fails below `y` (LookupError), the zero step is reached below `x/a` (ValueError), both at
+depth 1, `x` first in sequence order: the code raises ValueError.  Spec B's step-major `denote` meets
+the failed lookup first (step 2 over the whole selection, before step 3). -/
+
+def mixedPath : Spec.Path :=
+  ⟨false, [.slice none none none, .name ['a'], .slice none none (some (some 0))]⟩
+
+example : (denoteR mixedPath mixedTree [] true).forget = .error .value := by decide
+example : denote mixedPath mixedTree [] true = .error .lookup := by decide
+example : ¬ UniSteps true mixedPath.steps := by
+  intro h; rcases h with h | h <;> exact absurd h (by decide)
+example : evalOps mixedTree true (compile mixedPath) [] = .error .value := by
+  rw [eval_denotes_raw_gen]; decide
+
+/-- `[:]/a[:][::0]`, strict: the LookupError (depth 1) beats the ValueError (depth 2) although it is
+    later in sequence order -/
+def mixedPath2 : Spec.Path :=
+  ⟨false, [.slice none none none, .name ['a'], .slice none none none, .slice none none (some (some 0))]⟩
+
+example : denoteR mixedPath2 mixedTree [] true = .err 1 .lookup := by decide
+example : evalOps mixedTree true (compile mixedPath2) [] = .error .lookup := by
+  rw [eval_denotes_raw_gen]; decide
+
+/-- the same end to end, through printer and tokenizer: `find('[:]/a[::0]', strict=True)` raises
+    ValueError — an instance of `find_print_denotes_gen` that `find_print_denotes` does not cover -/
+def mixedCPath : CPath :=
+  ⟨false, false, [⟨.slice none none none, {}⟩, ⟨.name ['a'], {}⟩, ⟨.slice none none (some (some 0)), {}⟩]⟩
+
+theorem mixedCPath_fits : ∀ c ∈ mixedCPath.steps, StepFits c.step := by
+  intro c hc
+  simp only [mixedCPath, List.mem_cons, List.mem_nil_iff, or_false] at hc
+  rcases hc with hc | hc | hc <;> subst hc
+  · exact ⟨trivial, trivial, trivial⟩
+  · trivial
+  · refine ⟨trivial, trivial, ?_⟩
+    show IntFits 0
+    left
+    simp [natStr_zero]
+    decide
+
+example : find mixedTree [] (print mixedCPath) false true = .err .value := by
+  rw [find_print_denotes_gen _ _ _ _ _ (by decide) mixedCPath_fits (by decide)]
+  have : (denoteR mixedCPath.abstract mixedTree [] true).forget = .error .value := by decide
+  simp [findSpecR, this]
 
 end Flatland.C14.Proofs
